@@ -27,8 +27,9 @@ def perm(order, P):
     return idx
 
 
-def make_op(P, n, order):
-    """parameters p1..pP declared in this order; first use in the equations follows `order`"""
+def make_op(P, n, order, sdecl='identity'):
+    """parameters p1..pP declared in this order; first use in the equations follows `order`; the state variables are
+    declared in equation order or (sdecl='reverse') against it"""
     use = perm(order, P)
     terms = [[] for _ in range(n)]
     for q, j in enumerate(use):
@@ -40,7 +41,7 @@ def make_op(P, n, order):
         rhs = f'-x{i + 1}' + ''.join(f' + {t}' for t in terms[i])
         eqs.append(f"x{i + 1}' = {rhs}")
     variables = {}
-    for i in range(n):
+    for i in (range(n) if sdecl == 'identity' else reversed(range(n))):
         variables[f'x{i + 1}'] = f"{'output' if i == 0 else 'variable'}({round(0.3 + 0.25 * i, 2)})"
     for j in range(P):
         variables[f'p{j + 1}'] = round(0.5 + 0.125 * j, 4)
@@ -56,6 +57,12 @@ def cases(tier, seed):
                 out.append({'P': P, 'n': 2 if P > 1 else 1, 'order': order, 'scen': ['ivp'], 'over': {}})
         out.append({'P': 11, 'n': 3, 'order': 'rotate', 'scen': ['eq', 'lc'], 'over': {'NMX': 123}})
         out.append({'P': 16, 'n': 3, 'order': 'rotate', 'scen': ['ivp', 'eq', 'lc', 'bvp'], 'over': {'DS': 0.005, 'NPR': 7}})
+        out.append({'P': 4, 'n': 3, 'order': 'rotate', 'scen': ['ivp', 'eq'], 'over': {}, 'sdecl': 'reverse'})
+        out.append({'P': 11, 'n': 2, 'order': 'reverse', 'scen': ['ivp'], 'over': {}, 'sdecl': 'reverse'})
+        # every c.* file is the same whatever was exported before it: other scenario order, another model before
+        out.append({'P': 4, 'n': 2, 'order': 'identity', 'scen': ['lc', 'eq', 'ivp'], 'over': {}, 'cmp_single': True})
+        out.append({'P': 4, 'n': 2, 'order': 'identity', 'scen': ['ivp', 'eq'], 'over': {}, 'cmp_single': True,
+                    'after_other': True})
     else:
         for P in Ps:
             for order in ('identity', 'reverse', 'rotate'):
@@ -64,14 +71,22 @@ def cases(tier, seed):
                         if (n == 1 or order == 'identity') and scen != ['ivp']:
                             continue
                         out.append({'P': P, 'n': n, 'order': order, 'scen': scen, 'over': over})
+                        if n > 1 and order != 'identity' and P in (4, 11):
+                            out.append({'P': P, 'n': n, 'order': order, 'scen': scen, 'over': over, 'sdecl': 'reverse'})
+        import itertools
+        for so in itertools.permutations(['ivp', 'eq', 'lc']):
+            out.append({'P': 4, 'n': 2, 'order': 'identity', 'scen': list(so), 'over': {}, 'cmp_single': True})
+            out.append({'P': 4, 'n': 2, 'order': 'identity', 'scen': list(so), 'over': {'NMX': 55}, 'cmp_single': True,
+                        'after_other': True})
     out.append({'pure_indices': True})
     return out
 
 
 def describe(tier, seed):
     return {'rule': 'scalar models with P in {1,4,9,10,11,14,16} parameters (crossing the reserved PAR range), declaration order '
-                    'vs order of first use permuted (identity, reverse, rotate), 1-3 state variables, scenario selections and '
-                    'constant overrides: the generated .f90 and every c.* file are parsed (slots distinct, none in 11-14, '
+                    'vs order of first use permuted (identity, reverse, rotate), 1-3 state variables declared in or against '
+                    'equation order, scenario selections (in several orders; each c.* file must equal the one of a '
+                    'single-scenario export, also after an unrelated export with other overrides) and constant overrides: the generated .f90 and every c.* file are parsed (slots distinct, none in 11-14, '
                     'declaration order, parnames/unames/STPNT/forwarding call/DFDP columns use one slot per parameter, '
                     'NDIM/NPAR) and the f2py-wrapped stpnt/func are called (declared values in the named slots, vector field '
                     'equals the reference at probe points, perturbing args(slot(p)) acts like perturbing p, dfdu/dfdp equal '
@@ -92,7 +107,18 @@ def run_case(case):
     from pyrates import OperatorTemplate, NodeTemplate, CircuitTemplate
     import copy
     P, n = case['P'], case['n']
-    op = make_op(P, n, case['order'])
+    op = make_op(P, n, case['order'], case.get('sdecl', 'identity'))
+    if case.get('after_other'):
+        # an unrelated export with its own scenarios and overrides happened before in this process
+        try:
+            oo = OperatorTemplate('bop', equations=["q1' = -q1 + g1*q2", "q2' = -g2*q2 + g3"],
+                                  variables={'q1': 'output(0.2)', 'q2': 'variable(0.4)', 'g1': 0.5, 'g2': 1.5, 'g3': 0.25})
+            CircuitTemplate('bn', nodes={'p': NodeTemplate('bn', operators=[oo])}).get_run_func(
+                'vfb', step_size=1e-3, file_name='a18_other', backend='fortran', float_precision='float64', auto=True,
+                vectorize=False, solver='scipy', verbose=False, auto_constants=('ivp', 'eq', 'lc'), NMX=123, NPR=7, IID=3)
+        except Exception as e:
+            sig['exc'] = type(e).__name__
+            return viol('raises', detail=f'other export: {type(e).__name__}: {e}'[:300])
     fname = f"a18_{abs(hash(str(sorted((k, str(v)) for k, v in case.items())))) % 10 ** 9}"
     try:
         o = OperatorTemplate('aop', equations=list(op['eqs']), variables=copy.deepcopy(op['vars']))
@@ -132,14 +158,34 @@ def run_case(case):
         if slots is not None and s_ != slots:
             return viol('slots_differ_between_files', a=slots, b=s_)
         slots = s_
-        if un != {i + 1: f'x{i + 1}' for i in range(n)}:
-            return viol('unames', got=un)
+        if un != {int(svm[f'p/aop/x{i + 1}']) + 1: f'x{i + 1}' for i in range(n)}:
+            return viol('unames', got=un, state_var_map=str(svm))
         if consts.get('NDIM') != n or consts.get('NPAR', 0) < max(slots):
             return viol('ndim_npar', ndim=consts.get('NDIM'), npar=consts.get('NPAR'), max_slot=max(slots))
         for k, v in case['over'].items():
             if consts.get(k) != v:
                 return viol('constant_override', key=k, got=consts.get(k), expected=v)
     slot = dict(zip(pnames, slots))
+    if case.get('cmp_single'):
+        multi = {scen: open(f'c.{scen}').read() for scen in case['scen']}
+        from .. import pool
+        for scen in case['scen']:
+            pool.fresh_state()
+            try:
+                o1 = OperatorTemplate('aop', equations=list(op['eqs']), variables=copy.deepcopy(op['vars']))
+                c1 = CircuitTemplate('an', nodes={'p': NodeTemplate('pn', operators=[o1])})
+                c1.get_run_func('vfx', step_size=1e-3, file_name=fname, backend='fortran', float_precision='float64',
+                                auto=True, vectorize=False, solver='scipy', verbose=False, auto_constants=(scen,),
+                                **case['over'])
+            except Exception as e:
+                sig['exc'] = type(e).__name__
+                return viol('raises', detail=f'single export {scen}: {type(e).__name__}: {e}'[:300])
+            single = open(f'c.{scen}').read()
+            res['evals'] += 1
+            if single != multi[scen]:
+                d = [(a_, b_) for a_, b_ in zip(multi[scen].splitlines(), single.splitlines()) if a_ != b_]
+                sig['features'].append('constants_depend_on_earlier_exports')
+                return viol('constants_file_depends_on_history', scen=scen, diff=d[:8])
     # ---- static: subroutine signature, forwarding call, stpnt
     m = re.search(r'subroutine vfx\(([^)]+)\)', src_u)
     sig_args = [x.strip() for x in m.group(1).split(',')] if m else []
@@ -184,9 +230,12 @@ def run_case(case):
     if any(abs(args[i]) > 0 for i in others):
         return viol('stpnt_writes_foreign_slot', slots=[i + 1 for i in others if args[i] != 0])
     mref = Model({'aop': op}, {'p': [('aop', {})]}, [])
+    spos = [int(svm[f'p/aop/x{i + 1}']) for i in range(n)]
+    if sorted(spos) != list(range(n)):
+        return viol('state_var_map', got=str(svm))
     for i in range(n):
-        if abs(y[i] - mref.init[f'p/aop/x{i + 1}']) > 1e-12:
-            return viol('stpnt_state', i=i, got=float(y[i]))
+        if abs(y[spos[i]] - mref.init[f'p/aop/x{i + 1}']) > 1e-12:
+            return viol('stpnt_state', i=i, got=y.tolist(), state_var_map=str(svm))
     icp = np.array([1], dtype=np.int32)
 
     def F(yv, av, ijac=0):
@@ -203,11 +252,11 @@ def run_case(case):
                 av[slot[dev] - 1] += 0.61
                 Pd[f'p/aop/{dev}'] = op['vars'][dev] + 0.61
             dy, _, _ = F(yv, av)
-            exp, _ = mref.field({f'p/aop/x{i + 1}': yv[i] for i in range(n)}, Pd)
+            exp, _ = mref.field({f'p/aop/x{i + 1}': yv[spos[i]] for i in range(n)}, Pd)
             res['evals'] += 1
             for i in range(n):
                 e = exp[f'p/aop/x{i + 1}']
-                if abs(dy[i] - e) > 1e-9 * max(1.0, abs(e)):
+                if abs(dy[spos[i]] - e) > 1e-9 * max(1.0, abs(e)):
                     return viol('func_value', deviated=dev, i=i, got=float(dy[i]), expected=float(e))
     # dfdu / dfdp against central differences of func itself
     yv = rng_y[1]
